@@ -460,7 +460,7 @@ func init() {
 			if build == "race" {
 				return 3000
 			}
-			return vf.Tiered(tier, 160, 60000)
+			return vf.Tiered(tier, 800, 60000)
 		},
 		Shards: func(tier, build string) int { return 16 },
 		Floor:  func(tier string) int { return vf.Tiered(tier, 50, 500) },
